@@ -220,3 +220,29 @@ Theorem C12_update_nonneg : forall meth (va vb md : Q) (sa sb sx : nat),
   (0 <= upd_of QF meth va vb md sa sb sx)%Q.
 Proof. exact upd_nonneg. Qed.
 Print Assumptions C12_update_nonneg.
+
+(* ---- the full statement is FALSE of the faithful model at the edge of its stated domain
+   ("finite values whose squares neither overflow nor underflow"): entries between about 0.63
+   and 1.0 times sqrt(f64::MAX) have finite squares, but the weighted sums of the squares
+   overflow. On the matrix below (0.63 .. 0.90 times 1.34e154, four observations, Ward) the
+   model - like the implementation, see known_findings.txt and the band probe of the C12 check -
+   panics with the NaN panic through primitive, returns an infinite height through linkage and
+   runs out of fuel (the implementation does not return) through generic. ---- *)
+Require Import KV.Model.Linkage.
+From Coq Require Import Floats.
+Local Close Scope Q_scope.
+Definition C12_band : list PrimFloat.float :=
+  [0x1.ca3d8e6d80cbbp+511; 0x1.9c6a99c8f3ea8p+511; 0x1.6e97a52467095p+511;
+   0x1.40c4b07fda283p+511; 0x1.b354141b3a5b1p+511; 0x1.85811f76ad79fp+511]%float.
+Example C12_overflow_band_refuted :
+  Forall (fun x => PrimFloat.ltb (x * x) infinity = true /\ PrimFloat.ltb 1 (x * x) = true)%float C12_band
+  /\ run_with F64 Debug APrimitive Ward (st_new _) (d_new _ 0) C12_band 4 = Panic PNaN
+  /\ run_with F64 Release APrimitive Ward (st_new _) (d_new _ 0) C12_band 4 = Panic PNaN
+  /\ (exists s d mm, run_with F64 Debug ALinkage Ward (st_new _) (d_new _ 0) C12_band 4 = Ok (s, d, mm)
+        /\ In infinity (heights d))
+  /\ run_with F64 Debug AGeneric Ward (st_new _) (d_new _ 0) C12_band 4 = OutOfFuel.
+Proof.
+  split; [repeat constructor|]. split; [vm_compute; reflexivity|]. split; [vm_compute; reflexivity|].
+  split; [|vm_compute; reflexivity].
+  eexists _, _, _. split; [vm_compute; reflexivity|]. cbn. right. right. left. reflexivity.
+Qed.
